@@ -1890,6 +1890,7 @@ package gedcom
 // list of families.
 //@ func Document.addPointerToCache
 //@   props C13
+//@   inline
 //@   requires doc != nil
 //@   ghost P string = ""
 //@   ghost nStore int = 0
